@@ -167,14 +167,22 @@ def run_one(workdir, idx, rnd, mode, ct):
         rate = rnd.choice([1, 2, 2, 3, 10, 100, None])
     else:
         rate = rnd.choice([None, None, None, 0])
-    # code filter: admits program code only; rejects a random subset of its functions by name
+    # code filter: admits program code only; rejects a random subset of its code objects, chosen per CODE OBJECT
+    # (name + first line), so that two functions sharing a bare name (Base.m / Derived.m) can be decided differently
+    all_codes = []
+
+    def walk(co):
+        for c in co.co_consts:
+            if isinstance(c, types.CodeType):
+                all_codes.append((c.co_name, c.co_firstlineno))
+                walk(c)
+    walk(compile(src, path, "exec"))
     rejected = set()
     if rnd.random() < 0.5:
-        names = [n for n in ("f0", "f1", "g0", "co0", "m", "cm", "inner", "rec", "main", "prop") if rnd.random() < 0.25]
-        rejected = set(names)
+        rejected = {c for c in all_codes if rnd.random() < 0.2}
 
     def admit(code):
-        return code.co_filename == path and code.co_name not in rejected
+        return code.co_filename == path and (code.co_name, code.co_firstlineno) not in rejected
     use_filter = rnd.random() < 0.8
     draws = []
     rng = random.Random(rnd.randrange(1 << 30))
@@ -226,7 +234,7 @@ def run_one(workdir, idx, rnd, mode, ct):
             f"{common.coq_list(truth)} {common.coq_list(entries)}")
     del sys.modules[name]
     stats = {"events": len(events), "frames": len(rec.frames), "logged": len(impl), "rate": rate, "k": k,
-             "filter": use_filter, "rejected": sorted(rejected), "crashed": crashed, "errors": rec.errors[:3],
+             "filter": use_filter, "rejected": sorted(f"{n}@{l}" for n, l in rejected), "crashed": crashed, "errors": rec.errors[:3],
              "gens": src.count("yield"), "awaits": src.count("await Susp"), "residue": len(residue)}
     return {"term": term, "stats": stats, "src": src if idx < 2 else None, "prog": name}
 
